@@ -6,7 +6,7 @@ cd /repo || exit 2
 if ! git diff --quiet; then echo "repo dirty"; exit 2; fi
 git apply "$P" || { echo "patch does not apply: $P"; exit 2; }
 # must still compile and pass the pinned tests
-if ! (GOFLAGS=-mod=mod GOPROXY=off go build ./gameboy/cpu/ ./gameboy/memory/ ./gameboy/timer/ ./gameboy/ppu/ ./gameboy/oam/ ./gameboy/audio/ ./gameboy/controller/ ./gameboy/serial/ ./gameboy/interrupts/ >/dev/null 2>&1 && GOFLAGS=-mod=mod GOPROXY=off go test -count=1 ./gameboy/cpu/ ./gameboy/timer/ >/dev/null 2>&1); then echo "$(basename $P): does not compile or fails pinned tests"; git checkout -- .; exit 3; fi
+if ! (GOFLAGS=-mod=mod GOPROXY=off go build ./gameboy/cpu/ ./gameboy/memory/ ./gameboy/timer/ ./gameboy/ppu/ ./gameboy/oam/ ./gameboy/audio/ ./gameboy/controller/ ./gameboy/serial/ ./gameboy/interrupts/ >/dev/null 2>&1 && gofmt -e gameboy/gameboy.go >/dev/null 2>&1 && GOFLAGS=-mod=mod GOPROXY=off go test -count=1 ./gameboy/cpu/ ./gameboy/timer/ >/dev/null 2>&1); then echo "$(basename $P): does not compile or fails pinned tests"; git checkout -- .; exit 3; fi
 cd /verif
 export VERIF_EVIDENCE_DIR=/var/tmp/verif-mutant-evidence; mkdir -p $VERIF_EVIDENCE_DIR
 for prop in "$@"; do
